@@ -141,7 +141,7 @@ func c14Check2(cs []tcue, d int64, filler bool, d2 int64) string {
 	return ""
 }
 
-// well-formed timelines on 0..6 ms: ordered by start, non-decreasing ends, start < end
+// well-formed timelines on 0..6 ms: ordered by start, non-decreasing ends, start <= end (cues of no length included)
 func c14Grid(maxCues int) [][]tcue {
 	var out [][]tcue
 	var rec func(prefix []tcue)
@@ -155,7 +155,7 @@ func c14Grid(maxCues int) [][]tcue {
 			ls, le = prefix[len(prefix)-1].S, prefix[len(prefix)-1].E
 		}
 		for s := ls; s <= 6*ms; s += ms {
-			for e := s + ms; e <= 6*ms; e += ms {
+			for e := s; e <= 6*ms; e += ms {
 				if e < le {
 					continue
 				}
@@ -200,6 +200,9 @@ func c14Random(r *fw.Rand) ([]tcue, int64) {
 			s = 0
 		}
 		ne := s + (1+r.I64n(5000))*ms
+		if r.P(1, 8) {
+			ne = s // a cue of no length (a cleared caption): a legal member of a list with non-decreasing ends
+		}
 		if ne < e {
 			ne = e
 		}
@@ -242,7 +245,9 @@ func c15Within(got int64, exact *big.Rat, tolNs int64) bool {
 	return diff.Cmp(new(big.Rat).SetInt64(tolNs)) <= 0
 }
 
-var c15Slopes = [][2]int64{{25000, 23976}, {23976, 25000}, {30000, 29970}, {29970, 30000}, {1, 1}, {1, 2}, {2, 1}, {1001, 1000}, {1000, 1001}, {3, 2}}
+var c15Slopes = [][2]int64{{25000, 23976}, {23976, 25000}, {30000, 29970}, {29970, 30000}, {1, 1}, {1, 2}, {2, 1}, {1001, 1000}, {1000, 1001}, {3, 2},
+	// drifts of a fraction of a part per million (a slow clock over a long programme)
+	{2000001, 2000000}, {1999999, 2000000}, {10000001, 10000000}, {9999999, 10000000}}
 
 func c15Case(r *fw.Rand) (cs []tcue, a1, d1, a2, d2 int64, slopeKind string) {
 	day := int64(24 * time.Hour)
@@ -321,6 +326,22 @@ func c15Case(r *fw.Rand) (cs []tcue, a1, d1, a2, d2 int64, slopeKind string) {
 	}
 	if d2 == d1 { // slope 0 is outside 0.5..2; keep it positive
 		d2 = d1 + (a2 - a1)
+	}
+	if r.P(1, 8) {
+		// one of the two reference points is the origin (0 -> 0): a pure change of speed
+		sl := fw.Pick(r, c15Slopes)
+		a := rnd() + gran
+		x := new(big.Int).Mul(big.NewInt(a), big.NewInt(sl[0]))
+		d := x.Quo(x, big.NewInt(sl[1])).Int64()
+		if d == 0 {
+			d = a
+		}
+		slopeKind = fmt.Sprintf("origin %d/%d", sl[0], sl[1])
+		if r.Bool() {
+			a1, d1, a2, d2 = 0, 0, a, d
+		} else {
+			a1, d1, a2, d2 = a, d, 0, 0
+		}
 	}
 	return
 }
